@@ -504,3 +504,41 @@ def near_equal(w):
             yield OP('^', A, b, B)
             yield OP('+', A, b, OP('-', B))
             yield COND(OP('==', A, B), a, b)
+
+
+def eq_twins(t):
+    """structural neighbours that may change the width: used to probe == / hash (prefix argument
+    lists, dropped slots, other sizes); one point of difference each"""
+    k = t[0]
+    if k == 'int':
+        for w2 in (1, 8, 16, 32, 64):
+            if w2 != t[1] and t[2] <= mask(w2):
+                yield I(w2, t[2])
+    elif k == 'id':
+        yield ('id', t[1], 16 if t[2] != 16 else 32)
+        yield ('id', t[1], t[2], False, True)
+        yield ('id', t[1], t[2], True, False)
+        yield ('id', t[1], t[2], True, True)
+    elif k == 'mem':
+        for s2 in (8, 16, 32, 64):
+            if s2 != t[2]:
+                yield MEM(t[1], s2, t[3])
+    elif k == 'op':
+        if len(t[2]) >= 2:
+            yield ('op', t[1], t[2][:-1])
+            yield ('op', t[1], t[2][1:])
+        yield ('op', t[1], t[2] + (t[2][-1],))
+        yield ('op', t[1], t[2] + (I(_w(t[2][0]) if _w(t[2][0]) in (1, 8, 16, 32, 64) else 8, 0),))
+    elif k == 'slice':
+        if t[3] - 1 > t[2]:
+            yield SL(t[1], t[2], t[3] - 1)
+        if t[2] + 1 < t[3]:
+            yield SL(t[1], t[2] + 1, t[3])
+    elif k == 'compose':
+        if len(t[1]) >= 2:
+            yield ('compose', t[1][:-1])
+            yield ('compose', t[1][1:])
+        last = t[1][-1]
+        yield ('compose', t[1] + ((last[0], last[2], last[2] + (last[2] - last[1])),))
+    elif k == 'cond':
+        yield OP('+', t[1], t[2], t[3]) if _w(t[1]) == _w(t[2]) else COND(t[1], t[2], t[2])
